@@ -522,6 +522,48 @@ def extract_loops(src):
             fail("%s-group loop returns res without declaring it" % sym)
         out[sym] = {"init": R3.get(init, "M") if init else "M", "T": acts["True"], "F": acts["False"], "M": acts["Missing"],
                     "fin": "FAcc" if fin == "res" else "FConst %s" % R3[fin_r]}
+    # the all() loop over a group: the tail of the Match::All arm
+    arm_re = r"SolverResult::(\w+) => (\{\}|\{ res = SolverResult::(\w+); \}|return SolverResult::(\w+)|res = SolverResult::(\w+)),?"
+
+    def arms_of(txt, what, has_acc):
+        acts = {}
+        for am in re.finditer(arm_re, txt):
+            k = am.group(1)
+            if k not in R3 or k in acts:
+                fail("%s loop arm %s" % (what, k))
+            if am.group(2) == "{}":
+                acts[k] = "LNext"
+            elif am.group(4):
+                acts[k] = "LReturn %s" % R3[am.group(4)]
+            else:
+                if not has_acc:
+                    fail("%s loop assigns res without declaring it" % what)
+                acts[k] = "LSet %s" % R3[am.group(3) or am.group(5)]
+        if set(acts) != set(R3) or re.sub(arm_re, "", txt).strip():
+            fail("%s loop does not have exactly the three arms: %s" % (what, sorted(acts)))
+        return acts
+
+    m = re.search(r"Expression::Match\(\s*Match::All\s*,\s*ref\s+e\s*\)\s*=>\s*\{", src)
+    if not m or len(re.findall(r"Expression::Match\(\s*Match::All\s*,\s*ref\s+e\s*\)\s*=>", src)) != 1:
+        fail("Match::All arm not found exactly once")
+    body, _ = brace_block(src, m.end() - 1)
+    flat = " ".join(body.split())
+    mm = re.search(r"\}; for expression in group \{ match solve_expression\(expression, identifiers, document\) \{ (.*?) \} \} SolverResult::(\w+)$", flat)
+    if not mm or flat.count("for expression in group") != 1:
+        fail("Match::All group loop: " + flat[-160:])
+    acts = arms_of(mm.group(1), "all()-group", False)
+    out["All"] = {"init": "M", "T": acts["True"], "F": acts["False"], "M": acts["Missing"], "fin": "FConst %s" % R3[mm.group(2)]}
+    # the of(.., 0) branch of the Match::Of loop
+    m = re.search(r"Expression::Match\(\s*Match::Of\(c\)\s*,\s*ref\s+e\s*\)\s*=>\s*\{", src)
+    if not m or len(re.findall(r"Expression::Match\(\s*Match::Of\(c\)\s*,\s*ref\s+e\s*\)\s*=>", src)) != 1:
+        fail("Match::Of arm not found exactly once")
+    body, _ = brace_block(src, m.end() - 1)
+    flat = " ".join(body.split())
+    mm = re.search(r"\}; let mut count = 0; let mut res = SolverResult::(\w+); for expression in group \{ if c == 0 \{ match solve_expression\(expression, identifiers, document\) \{ (.*?) \} \} else \{ .* \} \} res$", flat)
+    if not mm or flat.count("for expression in group") != 1:
+        fail("Match::Of group loop: " + flat[-200:])
+    acts = arms_of(mm.group(2), "of(.., 0)-group", True)
+    out["Of0"] = {"init": R3[mm.group(1)], "T": acts["True"], "F": acts["False"], "M": acts["Missing"], "fin": "FAcc"}
     m = re.search(r"Expression::Negate\(\s*ref\s+e\s*\)\s*=>\s*\{", src)
     if not m or len(re.findall(r"Expression::Negate\(\s*ref\s+e\s*\)\s*=>", src)) != 1:
         fail("Negate arm not found exactly once")
@@ -547,6 +589,7 @@ def render_loops(t):
         "\n   or-group loop, the Negate arm) -- do not edit. *)",
         "From TauModel Require Import Base Syntax Value Solver LoopTable.", "",
         loop("and_group_loop", t["And"]), "", loop("or_group_loop", t["Or"]), "",
+        loop("all_group_loop", t["All"]), "", loop("of0_group_loop", t["Of0"]), "",
         "Definition negate_table : neg_table := {| n_T := %s; n_F := %s; n_M := %s |}." % (t["Neg"]["True"], t["Neg"]["False"], t["Neg"]["Missing"]), ""])
 
 
